@@ -185,7 +185,7 @@ def do_replay(prop, spec, path, scratch):
     env = dict(os.environ)
     env.update(SAN_ENV)
     rp = rec["replay"]
-    cmd = [exe, "--tier", rec.get("tier", "quick")] + list(st.get("args", [])) + ["--replay", rp if isinstance(rp, str) else json.dumps(rp)]
+    cmd = [exe, "--tier", rec.get("tier", "quick")] + list(st.get("args", [])) + ["--replay", rp if isinstance(rp, str) else json.dumps(rp, separators=(",", ":"))]
     r = subprocess.run(cmd, env=env, cwd=scratch, stdout=subprocess.PIPE, stderr=subprocess.PIPE, text=True)
     sys.stdout.write(r.stdout)
     sys.stderr.write(r.stderr[-4000:])
